@@ -654,6 +654,9 @@ func (i *interpreter) info(fn *ssa.Function) *fnInfo {
 		fi.external = externals[fi.name]
 	case fi.inRepo || interpretableStd[fi.name]:
 		fi.kind = 0
+	case fn.Parent() == nil && nativeFuncs[fi.name] != nil:
+		fi.kind = 1
+		fi.external = makeNative(fi.name, nativeFuncs[fi.name])
 	case fn.Name() == "init" && fn.Parent() == nil && fn.Signature.Recv() == nil:
 		fi.kind = 3
 	default:
